@@ -61,9 +61,18 @@ func drawWriterPlan(t *simrt.Tape, maxN int, big bool) writerPlan {
 	var p writerPlan
 	p.Kind = t.Choose(nWriterKinds)
 	p.N = t.Choose(maxN + 1)
+	shape := t.Choose(16)
+	if shape == 15 && !big {
+		// many batches: a re-sequencing buffer of any fixed size is overrun when one batch is
+		// overtaken by all the others
+		p.N = 18 + t.Choose(40)
+	}
 	total := 0
 	for i := 0; i < p.N; i++ {
 		s := sizeTable[t.Choose(4)]
+		if shape == 15 && !big {
+			s = 1
+		}
 		p.Sizes = append(p.Sizes, s)
 		total += s
 	}
@@ -85,6 +94,12 @@ func drawWriterPlan(t *simrt.Tape, maxN int, big bool) writerPlan {
 	if big {
 		p.LongSeq = true
 		lo, hi = 900, 2500
+	}
+	if shape == 14 && !big && total <= 8 {
+		// every batch formats to 70-200 KB: above the 64 KiB thresholds of buffer pools and
+		// of the compressor's blocks
+		p.LongSeq = true
+		lo, hi = 70000, 100000
 	}
 	p.Recs = genRecs(t, total, 0, p.Kind == wkFastq || (p.Kind == wkCSV && p.CSVCols&8 != 0 && t.Choose(2) == 1), lo, hi)
 	if p.Kind == wkJSON {
